@@ -52,7 +52,7 @@ static Json features(const Plan& p, const RunOutput& out, const std::string& cls
         if (v.cls() == cls)
         {
             failing_op = v.op_index;
-            f.set("min_beta_rel", v.min_beta_rel).set("expands", v.expands).set("ratio", (double) v.ratio);
+            f.set("min_beta_rel", v.min_beta_rel).set("expands", v.expands).set("restarts_since_init", v.restarts).set("ratio", (double) v.ratio);
             break;
         }
     for (size_t i = 0; i < t.script.size(); i++)
@@ -152,6 +152,9 @@ static int real_main(int argc, char** argv)
     go.force_family = std::atoi(arg(argc, argv, "--family", "-1").c_str());
     go.no_faults = flag(argc, argv, "--no-faults");
     go.single_shot = flag(argc, argv, "--single-shot");
+    const bool no_regime_skip = flag(argc, argv, "--no-regime-skip");
+    const int force_vclass = std::atoi(arg(argc, argv, "--vclass", "-1").c_str());
+    const int force_mclass = std::atoi(arg(argc, argv, "--mclass", "-1").c_str());
     if (flag(argc, argv, "--calibrate")) set_calibrating(true);
     const bool no_shrink = flag(argc, argv, "--no-shrink");
     RunOpts ro;
@@ -186,6 +189,14 @@ static int real_main(int argc, char** argv)
         const uint64_t rs = run_seed_of(seed, (uint64_t) idx);
         go.index = idx;
         Plan p = gen_plan_for(prop, rs, go);
+        // survey switches (never used by the registered checks): force input classes outside the default workload
+        if (no_regime_skip) p.params.set("no_regime_skip", true);
+        if (force_vclass >= 0)
+            for (auto& t : p.tasks)
+                for (auto& o : t.script)
+                    if (o.kind == OP_INITV || o.kind == OP_INIT0) { o.kind = OP_INITV; o.vclass = force_vclass; if (!o.vseed) o.vseed = rs; }
+        if (force_mclass >= 0)
+            for (auto& t : p.tasks) { t.w.mclass = force_mclass; if (force_mclass == M_LOWRANK && t.w.rank < 1) t.w.rank = 1 + (int) (rs % (uint64_t) std::max(1, t.w.ncv - 1)); }
         RunOutput out = run_plan(p, ro);
         executed++;
         evaluations += out.evaluations;
